@@ -190,6 +190,7 @@ func (f *Frame) step(ins ssa.Instruction, st State, in map[*ssa.BasicBlock][]edg
 		return f.runDefers(st, false), false
 	case *ssa.Defer:
 		f.defers = append(f.defers, ins)
+		f.deferPCs = append(f.deferPCs, st.PC)
 		if len(f.inLoopOf[b]) > 0 {
 			f.fail("defer inside a loop is outside the subset")
 			vc.Outside["defer in loop"] = true
@@ -255,10 +256,10 @@ func (f *Frame) exit(e Exit) {
 				return
 			}
 			// control resumes in the recover block, which returns the named results
-			saved := f.defers
-			f.defers = nil
+			saved, savedPCs := f.defers, f.deferPCs
+			f.defers, f.deferPCs = nil, nil
 			f.runRecoverBlock(st)
-			f.defers = saved
+			f.defers, f.deferPCs = saved, savedPCs
 			return
 		}
 		e.PC, e.Heap = st.PC, st.Heap
@@ -579,6 +580,11 @@ func (f *Frame) value(ins ssa.Value, st State) (Val, State) {
 		so := f.w.Sorts.SortOf(t)
 		comp := cellComp(so)
 		st.Heap = st.Heap.Set(comp, vc.Define("h."+comp, Store(st.Heap.Comp(comp, ArraySort(SInt, so)), r, f.w.Sorts.Zero(so))))
+		if privateCell(ins) {
+			// a variable captured only by closures that this function defers or calls
+			// itself: no other function can reach its cell, so `modifies *` leaves it alone
+			vc.privateCells = append(vc.privateCells, privCell{ref: r, comp: comp, sort: ArraySort(SInt, so)})
+		}
 		return Val{T: r}, st
 	case *ssa.FieldAddr:
 		p := f.val(ins.X)
@@ -1016,4 +1022,74 @@ func feedsAppendOrCopy(ins *ssa.Slice) bool {
 		}
 	}
 	return false
+}
+
+type privCell struct {
+	ref  Term
+	comp string
+	sort Sort
+}
+
+// privateCell: the address of this heap-allocated local is only loaded from, stored
+// to, or captured by closures that are only deferred / called directly and that use
+// the captured variable only for loads and stores.
+func privateCell(a *ssa.Alloc) bool {
+	if a.Referrers() == nil {
+		return false
+	}
+	onlyLoadStore := func(v ssa.Value, refs []ssa.Instruction) bool {
+		for _, r := range refs {
+			switch x := r.(type) {
+			case *ssa.Store:
+				if x.Val == v {
+					return false
+				}
+			case *ssa.UnOp, *ssa.DebugRef:
+			default:
+				return false
+			}
+		}
+		return true
+	}
+	for _, r := range *a.Referrers() {
+		switch x := r.(type) {
+		case *ssa.Store:
+			if x.Val == ssa.Value(a) {
+				return false
+			}
+		case *ssa.UnOp, *ssa.DebugRef:
+		case *ssa.MakeClosure:
+			fn, ok := x.Fn.(*ssa.Function)
+			if !ok || x.Referrers() == nil {
+				return false
+			}
+			for _, cr := range *x.Referrers() {
+				switch c := cr.(type) {
+				case *ssa.Defer:
+					if c.Call.Value != ssa.Value(x) {
+						return false
+					}
+				case *ssa.Call:
+					if c.Call.Value != ssa.Value(x) {
+						return false
+					}
+				case *ssa.DebugRef:
+				default:
+					return false
+				}
+			}
+			for i, b := range x.Bindings {
+				if b != ssa.Value(a) {
+					continue
+				}
+				fv := fn.FreeVars[i]
+				if fv.Referrers() == nil || !onlyLoadStore(fv, *fv.Referrers()) {
+					return false
+				}
+			}
+		default:
+			return false
+		}
+	}
+	return true
 }
